@@ -608,7 +608,7 @@ fn main() {
     main_for(PropDef {
         id: "C02",
         level: "fault_enumeration",
-        rule: "sequences of 1..30 (quick) / 1..40 (thorough) put_durable/delete_durable/sync/checkpoint calls over 10 keys of all classes (plain, emb: with slab-dimension and off-dimension vectors, node:/edge:, table:, _cache:) and all value kinds, sync mode drawn from immediate/batched/manual, 12% with a 2 KB log limit (rotation), up to 3 crash points; at each crash: every hook site inside checkpoint()/rotate() plus every byte (part allcuts, thorough) or record boundaries +-1/header offsets/3 interior points (quick) of the bytes the call appended; the generated image continues the chain. non-trivial = a crash strictly inside a record, inside checkpoint/rotation, or a second crash after writes on a recovered store; distinct = distinct generated sequence",
+        rule: "sequences of 1..30 (quick) / 1..40 (thorough) put_durable/delete_durable/sync/checkpoint calls over 10 keys of all classes (plain, emb: with slab-dimension and off-dimension vectors, node:/edge:, table:, _cache:) and all value kinds (15% of the puts preceded by a non-durable put of the same value, so that memory already holds what the durable write must log), sync mode drawn from immediate/batched/manual, 12% with a 2 KB log limit (rotation), up to 3 crash points; at each crash: every hook site inside checkpoint()/rotate() plus every byte (part allcuts, thorough) or record boundaries +-1/header offsets/3 interior points (quick) of the bytes the call appended; the generated image continues the chain. non-trivial = a crash strictly inside a record, inside checkpoint/rotation, or a second crash after writes on a recovered store; distinct = distinct generated sequence",
         assumptions: vec![
             "a crash keeps the bytes that reached the files (process-kill model: user-space buffers are lost, a dropped fsync is invisible) and, for the crashing call, any byte prefix of what it appended",
             "oracle = the store's own observable state (scan + get of every key, floats bit-exact) recorded after every call; recovery must reproduce one of the recorded states not older than the last acknowledged call",
